@@ -16,8 +16,8 @@ RULE = ("programs are converted by persistent worker processes under every host 
         "runtime. Programs: Hypothesis-drawn G-PROG programs (dropped when the 3.8 worker cannot compile "
         "the source), the pool and the repository's scripts. Non-trivial: host != runtime and the "
         "program has a version-sensitive construct (f-string, walrus, positional-only parameter, starred "
-        "target, comprehension in a class body, lambda default); distinct by (program, host, runtime, "
-        "configuration).")
+        "target, comprehension in a class body, lambda default); distinct by (output text, runtime) - one "
+        "evaluation covers every (host, configuration) that produced that text (host_config_runtime_cells).")
 
 SENSITIVE = {"f-string", "walrus", "posonly", "starred", "lambda-default", "class", "comprehension", "version-sensitive"}
 
@@ -192,9 +192,9 @@ def check_program(part, pool_, source, tags, switches, label):
                 raise env.HarnessError("runtime worker %s: %s" % (rt, e.get("err")))
             part["evaluations"] += 1
             part["classes"]["runtime:" + rt] += 1
-            for host, cfg in origins:
-                if host != rt and (SENSITIVE & set(tags)):
-                    part["nontrivial"].add(key_hash(source, host, rt, cfg))
+            if (SENSITIVE & set(tags)) and any(host != rt for host, cfg in origins):
+                part["nontrivial"].add(key_hash(text, rt))
+            part["extra"]["host_config_runtime_cells"] = part["extra"].get("host_config_runtime_cells", 0) + len(origins)
             host, cfg = origins[0]
             d = []
             if not e.get("ok"):
